@@ -121,6 +121,7 @@ theorem curK_eq_view {k : Kind} {hist base : Hist} (hs : Sorted (viewOf k hist b
     simp only [viewOf] at hs
     obtain ⟨h1, h2⟩ := sorted_append hs
     simp only [curK, viewOf, currentTid_append, curS_eq h1, curS_eq h2]
+    cases currentTid hist o <;> rfl
 
 theorem view_cons (k : Kind) (t : Txn) (hist base : Hist) :
     viewOf k (t :: hist) base = t :: viewOf k hist base := by
@@ -250,123 +251,6 @@ theorem storeSimple_mapping_ne (E : Env) (h : Hist) (cache : List ClassId) (oid 
     (serial ct : Tid) (data : Record) (hc : curS .mapping h oid = some ct) (hne : serial ≠ ct) :
     storeSimple E .mapping h cache oid serial data = { out := none, cache := cache, calls := [] } := by
   simp [storeSimple, hc, hne]
-
-theorem storeSimple_file_ne (E : Env) (h : Hist) (cache : List ClassId) (oid : Oid)
-    (serial ct : Tid) (data : Record) (hc : curS .file h oid = some ct) (hne : serial ≠ ct) :
-    storeSimple E .file h cache oid serial data =
-      (let r := tryToResolve E (loadSerialFile h) cache oid ct serial data none
-       match r.out with
-       | .ok d => { out := some (d, true), cache := r.cache, calls := r.call.toList }
-       | .error _ => { out := none, cache := r.cache, calls := r.call.toList }) := by
-  simp [storeSimple, hc, hne]
-
-theorem sys_eta_cache (s : Sys) : { s with cache := s.cache } = s := rfl
-
-theorem storeK_simple_eq (E : Env) (s : Sys) (k : Simple) (hk : s.kind = .simple k)
-    (hs : Sorted s.view) (oid : Oid) (serial : Tid) (data : Record) :
-    storeK E s oid serial data = storeSpec E s oid serial data := by
-  have hcur : curS k s.hist oid = currentTid s.view oid := by
-    have := curK_eq_view (k := s.kind) (hist := s.hist) (base := s.base) hs oid
-    rw [hk] at this
-    simpa [curK, Sys.view, hk] using this
-  unfold storeK storeSpec
-  rw [hk]
-  simp only
-  cases hc : currentTid s.view oid with
-  | none =>
-    rw [hc] at hcur
-    rw [storeSimple_none E k s.hist s.cache oid serial data hcur]
-    rfl
-  | some ct =>
-    rw [hc] at hcur
-    simp only
-    by_cases hne : serial = ct
-    · subst hne
-      rw [storeSimple_eq E k s.hist s.cache oid serial data hcur]
-      simp [acceptRes]
-    · simp only [hne, if_false]
-      cases k with
-      | mapping =>
-        rw [storeSimple_mapping_ne E s.hist s.cache oid serial ct data hcur hne]
-        simp [Kind.resolves]
-      | file =>
-        rw [storeSimple_file_ne E s.hist s.cache oid serial ct data hcur hne]
-        simp only [Kind.resolves, if_true, loadSerialK, loadSerialS]
-        cases (tryToResolve E (loadSerialFile s.hist) s.cache oid ct serial data none).out with
-        | ok d => simp
-        | error e => simp
-
-theorem storeK_demo_eq (E : Env) (s : Sys) (kc kb : Simple) (hk : s.kind = .demo kc kb)
-    (hs : Sorted s.view) (hin : s.innerResolved = []) (oid : Oid) (serial : Tid) (data : Record) :
-    storeK E s oid serial data = storeSpec E s oid serial data := by
-  have hcur : curK (.demo kc kb) s.hist s.base oid = currentTid s.view oid := by
-    have := curK_eq_view (k := s.kind) (hist := s.hist) (base := s.base) hs oid
-    rw [hk] at this
-    simpa [Sys.view, hk] using this
-  -- the inner `changes.store` always accepts: it is handed the serial it compares with
-  have hinner : ∀ ser, (curK (.demo kc kb) s.hist s.base oid).getD ser = ser ∨
-      curK (.demo kc kb) s.hist s.base oid = some ser →
-      ∀ cache d, (curS kc s.hist oid = none ∨ curS kc s.hist oid = some ser) →
-      storeSimple E kc s.hist cache oid ser d = { out := some (d, false), cache := cache, calls := [] } := by
-    intro ser _ cache d h
-    rcases h with h | h
-    · exact storeSimple_none E kc s.hist cache oid ser d h
-    · exact storeSimple_eq E kc s.hist cache oid ser d h
-  unfold storeK storeSpec
-  rw [hk]
-  simp only
-  cases hc : currentTid s.view oid with
-  | none =>
-    rw [hc] at hcur
-    have hcs : curS kc s.hist oid = none := by
-      simp only [curK] at hcur
-      cases h1 : curS kc s.hist oid with
-      | none => rfl
-      | some t => rw [h1] at hcur; cases hcur
-    simp only [hcur, Option.getD_none, if_true]
-    rw [storeSimple_none E kc s.hist s.cache oid serial data hcs]
-    simp [acceptRes, hin]
-  | some ct =>
-    rw [hc] at hcur
-    have hcs : curS kc s.hist oid = none ∨ curS kc s.hist oid = some ct := by
-      simp only [curK] at hcur
-      cases h1 : curS kc s.hist oid with
-      | none => left; rfl
-      | some t => rw [h1] at hcur; right; exact hcur
-    simp only [hcur, Option.getD_some]
-    by_cases hne : serial = ct
-    · subst hne
-      simp only [if_true]
-      have : storeSimple E kc s.hist s.cache oid serial data =
-          { out := some (data, false), cache := s.cache, calls := [] } := by
-        rcases hcs with h | h
-        · exact storeSimple_none E kc s.hist s.cache oid serial data h
-        · exact storeSimple_eq E kc s.hist s.cache oid serial data h
-      rw [this]
-      simp [acceptRes, hin]
-    · have hne' : ¬ ct = serial := fun h => hne h.symm
-      simp only [hne, hne', if_false, Kind.resolves, if_true]
-      cases ht : (tryToResolve E (loadSerialK (.demo kc kb) s.hist s.base) s.cache oid ct serial data none).out with
-      | error e => simp
-      | ok rdata =>
-        simp only
-        have : ∀ cache, storeSimple E kc s.hist cache oid ct rdata =
-            { out := some (rdata, false), cache := cache, calls := [] } := by
-          intro cache
-          rcases hcs with h | h
-          · exact storeSimple_none E kc s.hist cache oid ct rdata h
-          · exact storeSimple_eq E kc s.hist cache oid ct rdata h
-        rw [this]
-        simp [hin]
-
-/-- `store` by the lock holder = `storeSpec`, for every kind, in every state with ordered tids
-    (the inner `changes.store` of a DemoStorage never conflicts and never resolves) -/
-theorem storeK_eq (E : Env) (s : Sys) (hs : Sorted s.view) (hin : s.innerResolved = [])
-    (oid : Oid) (serial : Tid) (data : Record) :
-    storeK E s oid serial data = storeSpec E s oid serial data := by
-  cases hk : s.kind with
-  | simple k => exact storeK_simple_eq E s k hk hs oid serial data
-  | demo kc kb => exact storeK_demo_eq E s kc kb hk hs hin oid serial data
 
 /-! ### basic facts on `step` -/
 
